@@ -4,7 +4,7 @@ package main
 // client limiter (udp, tcp, gnet) and of the per-connection concurrency limit (tcp, gnet) — obey the OPT rule
 // too: exactly one OPT (the proxy's size, no options) iff the query had one.
 //
-// case : kind=<udp|tcp|gnet> why=<limiter|overload> n=<queries> seed=<s>
+// case : kind=<udp|udpmr|tcp|gnet> why=<limiter|overload> n=<queries> seed=<s>
 // out  : refused=<some|none> optok=<1|0> ## refused=<k> answered=<k> bad=<detail>
 
 import (
@@ -53,8 +53,12 @@ func runRefusedOpt(cs string) string {
 	}
 	resps := map[uint16][]byte{}
 	switch kind {
-	case "udp":
-		c, err := net.DialUDP("udp", nil, &net.UDPAddr{IP: net.IPv4(127, 0, 0, 1), Port: f.ports[kind]})
+	case "udp", "udpmr":
+		ip := net.IPv4(127, 0, 0, 1)
+		if kind == "udpmr" {
+			ip = net.IPv4(127, 0, 0, 2)
+		}
+		c, err := net.DialUDP("udp", nil, &net.UDPAddr{IP: ip, Port: f.ports[kind]})
 		if err != nil {
 			return "dial-error"
 		}
@@ -148,9 +152,9 @@ func genRefusedOpt(r *rand.Rand, thorough bool, emit func(c, cat string)) {
 		rounds = 6
 	}
 	for i := 0; i < rounds; i++ {
-		for _, kind := range []string{"udp", "tcp", "gnet"} {
+		for _, kind := range []string{"udp", "udpmr", "tcp", "gnet"} { // udpmr: udp on the wildcard address with multi_routes
 			emit(fmt.Sprintf("kind=%s why=limiter n=12 seed=%d", kind, r.Intn(1<<30)), kind+"-limiter")
-			if kind != "udp" {
+			if kind != "udp" && kind != "udpmr" {
 				emit(fmt.Sprintf("kind=%s why=overload n=8 seed=%d", kind, r.Intn(1<<30)), kind+"-overload")
 			}
 		}
